@@ -155,6 +155,7 @@ type Engine struct {
 
 	QEs []*QEInfo
 	curReq *Submission
+	idleNow bool
 	subsChecked bool
 	Mon *simconn.Monitor
 	foreignShutdownEpoch int
@@ -185,6 +186,7 @@ type QEInfo struct {
 	Calls    []uint64 // seq of non-nil callback starts
 	Expired  bool
 	SubFailed bool
+	NilAt    []time.Time
 	Script   []string
 }
 
